@@ -47,6 +47,16 @@ bool break_lbuf(const Schema& s, Value& v, Tape& t) {
 // ------------------------------------------------------------------------------------------------
 // C01: round trip, exact consumption, every writer x reader pairing, several values per stream.
 std::string body_C01(Ctx& c, CaseIn& in) {
+  // growable byte / integral sequences: whenever the empty value comes up, a payload larger than a stream buffer
+  // (20-33 KB) makes the round trip too (file streams refill piecewise; fd readers read in pieces)
+  if ((in.t->schema->k == K::Bin || in.t->schema->k == K::Str) && in.t->schema->fixed < 0 && in.t->schema->maxc < 0 && in.v.bytes.empty() && !in.nested) {
+    CaseIn big = in; big.nested = true;
+    const size_t es = in.t->schema->bits / 8;
+    lcg_fill(big.v.bytes, (size_t)(20000 + in.rest->below(13000)) / es * es, 91);
+    std::string m = body_C01(c, big);
+    if (!m.empty()) return m;
+    c.rep.label("large-payload-round-trip");
+  }
   FormGuard form_guard(in); c.rep.label(std::string("form:") + FormGuard::name());
   Tape& tp = *in.rest;
   // The stream: the case's own (type, value) first, then 0..3 further values of shard types.
